@@ -14,3 +14,11 @@ package deletetopics
 //@   layout v1..v3 ThrottleTimeMs int32, Responses []ResponseTopic
 //@ wire ResponseTopic
 //@   layout v0..v3 Name string, ErrorCode int16
+
+//@ property C12
+// Routing (C12): which of the protocol message interfaces the request satisfies decides where the Transport sends it
+// (connPool.sendRequest tests BrokerMessage, then GroupMessage, then TransactionalMessage).
+//@ wire Request
+//@   implements protocol.BrokerMessage
+//@   notimplements protocol.GroupMessage
+//@   notimplements protocol.TransactionalMessage
